@@ -40,8 +40,10 @@ LEVEL_TEXT = (
 )
 LEVEL_NOTE = (
     "Sampled, not exhaustive. Only the NumPy connector and float64 are exercised. Values that are wrong but identical "
-    "at every hbar are not judged here (observations only). purify(), wigner_function() and is_pure() are recorded as "
-    "observations only; measurement sampling is outside this check."
+    "at every hbar are not judged here (observations only: e.g. get_phaseshifter_expectation_value on >= 2 modes, the "
+    "xxpp/xpxp mix-up inside wigner_function on >= 2 modes). purify(), wigner_function() and is_pure() are recorded as "
+    "observations only; measurement sampling is outside this check. The fidelity comparison uses a Bauer-Fike error bound "
+    "of the implemented formula (up to ~1e-4 relative on pure states) instead of the flat 1e-9."
 )
 RULE = (
     "cases = one per physical state (setter family) or gate program (program family); each case is realised at 6 hbar "
@@ -924,7 +926,7 @@ def plan(tier, seed):
     if tier == "quick":
         n, per = 8, 110
     else:
-        n, per = 12, 900
+        n, per = 12, 750
     # The first shard runs alone (its weight fills every job slot): it compiles the numba kernels behind
     # fock_probabilities / density_matrix once into the per-source-digest cache instead of 8 shards doing it at once.
     specs = [{"name": "warm-cache", "shard": 100, "count": 10, "weight": 1024, "env": dict(SINGLE_THREAD)}]
@@ -956,6 +958,9 @@ def run_shard(spec):
     t0 = time.time()
     slowest = 0.0
     budget = 100 if spec["tier"] == "quick" else 520
+    if spec.get("name") == "warm-cache":
+        budget = 650   # a cold numba cache costs minutes of compilation on a loaded machine; cutting this shard short
+        #               would leave the remaining kernels to be compiled by every other shard at once
     for i in range(int(spec["count"])):
         if time.time() - t0 > budget:
             ctx.obs.add("a shard stopped by its time budget after %d of %d cases" % (i, int(spec["count"])))
